@@ -1,4 +1,5 @@
 import FeedVerif.Model.Stream
+import FeedVerif.Model.Prefix
 /-!
 Driver glue for M-stream.  Byte strings are comma-separated decimals, `_` = empty.
 `stream pw <prefix> <rest> <caps> <op>…` with ops `r<n>` (sized read) / `ra` (read all) → chunks joined by `|`;
@@ -47,6 +48,23 @@ def driverStep (ws : List String) : String :=
     match decBytes content, pos.toNat? with
     | some c, some p => let r := probe ⟨c, p⟩; (if r.1 then "1" else "0") ++ " " ++ toString r.2.pos
     | _, _ => "bad-op"
+  | ["retry", start, pos, len, script] =>
+    -- M-prefix: `stream retry <start> <pos> <content length> <b,score,utf;b,score,utf;…>`: the scripted answers of convert_to_utf8 for
+    -- prefixes ending at pos+0, pos+1, … (the last entry repeats); answers `<offset> <bozo> <score> <utf> <converted length>`
+    match start.toNat?, pos.toNat?, len.toNat? with
+    | some st, some ps, some n =>
+      let entries : List (Bool × Nat × Bool) := (script.splitOn ";").filterMap fun e =>
+        match e.splitOn "," with
+        | [b, sc, u] => (sc.toNat?).map fun k => (b == "1", k, u == "1")
+        | _ => none
+      let conv (b : Prefix.Bytes) : Prefix.R :=
+        let i := (st + b.length) - ps
+        let e := (entries[i]?).getD ((entries.getLast?).getD (false, 0, true))
+        ⟨b, e.1, e.2.1, e.2.2⟩
+      match Prefix.boundarySearch conv (List.range n) st ps with
+      | some (off, r) => s!"{off} {if r.bozo then 1 else 0} {r.excScore} {if r.utf then 1 else 0} {r.out.length}"
+      | none => "none"
+    | _, _, _ => "bad-op"
   | _ => "bad-op"
 
 end FeedVerif.Stream
